@@ -58,6 +58,9 @@ func init() {
 		Enum: func(tier string, e *engine.Emitter) {
 			pr := c04PrecisionDocs()
 			pairs(e, "c05:PRECISION:0.1", "precision", pr, pr)
+			pairs(e, "c05:PRECISION:0.2", "precision", pr, pr)
+			pairs(e, "c05:PRECISION:1", "precision", pr, pr)
+			pairs(e, "c05:PRECISION:0.01", "precision", pr, pr)
 			ex := c04ExactDocs()
 			pairs(e, "c05:PRECISION:0.5", "precision-exact-boundary", ex, ex)
 			al := NewTextSet(AliasDocs())
@@ -88,7 +91,7 @@ func runC05(c *engine.Case) engine.Result {
 	aV, bV := ref.MustParse(c.A), ref.MustParse(c.B)
 	var want bool
 	if o.Eps > 0 {
-		if o.Eps != 0.5 && ref.NearBoundary(aV, bV, o.Eps) {
+		if ref.NearBoundary(aV, bV, o.Eps) {
 			return engine.Result{Bucket: "no-verdict: on the eps boundary"}
 		}
 		want = ref.EqualEps(aV, bV, o.Eps)
